@@ -192,6 +192,7 @@ def r15_2(ctx):
         out.bad(fn.qname, f"clean() raises {ex.what} on a chain that cannot be united further", where=fn.where())
     # BezierCurve.clean
     fb = ctx.fn("curve.BezierCurve.clean")
+    ends_bad = False
     for errs, want_times in (((0, 0), 2), ((0, 5), 1), ((5, 0), 0), ((Fr(1, 10**12), 5), 1), ((Fr(1, 1000), 0), 0),
                              ((0, Fr(1, 10**6)), 1)):
         B = Obj("B", degree=3, ctrlpoints=("p0", "p1", "p2", "p3"))
@@ -223,6 +224,16 @@ def r15_2(ctx):
                     where=fb.where(), detail=f"required {want_times}: lower while the error stays within the tolerance")
         else:
             out.ok(fb.qname, f"errors {tuple(map(str, errs))} -> lowered {want_times} time(s)", where=fb.where())
+            final = tuple(B.ctrlpoints)
+            if want_times and (final[0] != "p0" or final[-1] != "p3"):
+                ends_bad = True
+    if ends_bad:
+        out.bad(fb.qname, "a degree reduction replaces the end points of the segment by new objects: the junctions with the "
+                          "neighbouring segments are no longer shared points", where=fb.where(),
+                detail="BezierCurve.clean on (p0, p1, p2, p3): the reduced control points must start with p0 and end with p3 "
+                       "themselves (a closed curve built from a reducible piece lists its junction vertices twice)")
+    else:
+        out.ok(fb.qname, "a degree reduction keeps the two end point objects of the segment", where=fb.where())
     return out
 
 
@@ -260,8 +271,12 @@ def r15_3(ctx):
                            "split at t are united at node t", floor=3)
     out.text = out.text
     fn = ctx.fn("curve.PlanarCurve.__or__")
-    P0, P1, P2 = Vec(0, 0), Vec(3, 6), Vec(9, 0)
-    for t in (Fr(1, 3), Fr(1, 2), Fr(7, 10)):
+    E0, E1, E2 = Vec(0, 0), Vec(3, 6), Vec(9, 0)
+    F0, F1, F2 = Vec(0.1, 0.2), Vec(3.3, 6.1), Vec(9.7, 0.4)
+    # exact pieces, and pieces computed in floating point: there the two junction tangents are parallel only up to
+    # rounding (their cross product is of the order of 1e-16, not 0), and the pieces must be united all the same
+    for t in (Fr(1, 3), Fr(1, 2), Fr(7, 10), 0.3, 0.41, 0.77):
+        P0, P1, P2 = (F0, F1, F2) if isinstance(t, float) else (E0, E1, E2)
         a, b = lerp(P0, P1, t), lerp(P1, P2, t)
         m = lerp(a, b, t)
         first = Obj("first", degree=2, ctrlpoints=(P0, a, m))
@@ -289,9 +304,20 @@ def r15_3(ctx):
             out.undecided(fn.qname, f"t={t}: not interpretable: {ex}", where=fn.where())
             continue
         except Raised as ex:
-            out.bad(fn.qname, f"uniting the two pieces of a curve split at t={t} raises {ex.what}", where=fn.where())
+            how = " (computed in floating point: the junction tangents are parallel up to rounding only)" if isinstance(t, float) else ""
+            out.bad(fn.qname, f"uniting the two pieces of a curve split at t={t}{how} raises {ex.what}", where=fn.where())
             continue
         node = kvs[0].scaled if kvs else None
+        if isinstance(t, float):
+            cleaned = made[0].cleaned if made else None
+            if node is None or abs(node - t) > 1e-9:
+                out.bad(fn.qname, "re-parametrisation node is not derived from the junction tangents", where=fn.where(),
+                        detail=f"pieces of a float quadratic split at t={t} are united at node {node}")
+            elif not cleaned or len(cleaned) != 1 or abs(cleaned[0] - t) > 1e-9:
+                out.bad(fn.qname, f"the junction knot {t} is not the one removed", where=fn.where())
+            else:
+                out.ok(fn.qname, f"pieces of a split computed in floating point (t={t}) united at node t", where=fn.where())
+            continue
         if node != t:
             out.bad(fn.qname, "re-parametrisation node is not derived from the junction tangents", where=fn.where(),
                     detail=f"pieces of a quadratic split at t={t} are united at node {node}: the pieces are never merged back")
